@@ -472,12 +472,31 @@ func ruleL4(c *Ctx, id string) {
 				n++
 				mt, mf, mbase, _ := loadedField(recvOf(in))
 				_ = mbase
-				isUnlock := func(x ssa.Instruction) bool {
+				direct := func(x ssa.Instruction, sub Subst) bool {
 					if !isMutexMethod(staticCallee(x), "Unlock") {
 						return false
 					}
-					t2, f2, b2, _ := loadedField(recvOf(x))
+					t2, f2, b2, _ := loadedFieldS(recvOf(x), sub)
+					if b2 != nil {
+						b2 = stripConv(sub.resolve(stripConv(b2)))
+					}
 					return t2 == mt && f2 == mf && b2 == mbase
+				}
+				// a local closure or private helper that unlocks the same mutex on all its paths counts at its call
+				unlocking := map[ssa.Instruction]bool{}
+				for _, sc := range scopesOf(fn) {
+					if sc.Via == nil || sc.Via.Parent() != fn || sc.Fn.Blocks == nil {
+						continue
+					}
+					sub := sc.S
+					is := func(x ssa.Instruction) bool { return direct(x, sub) }
+					entry := sc.Fn.Blocks[0].Instrs[0]
+					if is(entry) || MustAfter(sc.Fn, is, nil)(entry) {
+						unlocking[sc.Via] = true
+					}
+				}
+				isUnlock := func(x ssa.Instruction) bool {
+					return direct(x, Subst{}) || unlocking[x]
 				}
 				// deferred unlock counts
 				deferred := false
@@ -543,6 +562,9 @@ func ruleL8(c *Ctx, id string) {
 			}
 			owner := ownerOf(cs.Caller)
 			why, ok := rawAcquirers[FuncName(owner)]
+			if !ok && soleAcquisition(c, cs.Instr) {
+				ok, why = true, "the only acquisition of a transaction begun in this function: it never waits for a second lock"
+			}
 			R.Analysed[FuncName(owner)] = true
 			R.Check(ok, id, FuncName(owner)+"|raw acquisition "+tgt.Name(), P.Pos(cs.Instr.Pos()), "a frozen site: "+why, "listed", FuncName(owner)+" locks an inode by number without giving it up when it is free: it then waits for its next lock while holding a free inode, and a CREATE that holds that next inode (a directory) and is handed this free number by the allocator waits for it in turn - both hang although every transaction locks in ascending order")
 		}
@@ -634,4 +656,45 @@ func ruleL9(c *Ctx, id string) {
 	if n == 0 {
 		R.Fail(id, "nfs|retry on a pending shrink", "", "the handlers that meet a shrinking inode retry (getShrink, getAlloc)", "no retry loop on IsShrinking found in package nfs")
 	}
+}
+
+// soleAcquisition: the transaction the call acquires for is begun in the same
+// function, and nothing else is done with it there that could take a second
+// lock (only terminators and uses of its allocation part).
+func soleAcquisition(c *Ctx, in ssa.Instruction) bool {
+	V := c.V
+	recv := recvOf(in)
+	if recv == nil {
+		return false
+	}
+	ok, n := derivesOnlyFrom(recv, funcIs(V.Begin), 0)
+	if !ok || n == 0 {
+		return false
+	}
+	ps, _ := producersOf(recv)
+	for _, p := range ps {
+		if p.call.Parent() != in.Parent() {
+			return false
+		}
+		for _, r := range refs(p.call) {
+			switch x := r.(type) {
+			case *ssa.Call:
+				if ssa.Instruction(x) == in {
+					continue
+				}
+				cal := x.Call.StaticCallee()
+				if cal == nil || V.Terminators[cal] == "" {
+					return false
+				}
+			case *ssa.FieldAddr:
+				if fieldNameAt(x) != "Atxn" {
+					return false
+				}
+			case *ssa.Phi, *ssa.DebugRef:
+			default:
+				return false
+			}
+		}
+	}
+	return true
 }
